@@ -1,5 +1,81 @@
 import QipVerif.Util.Proto
-/-! Driver stub (to be filled in by the owner of this model). -/
-open QipVerif.Proto
-def step (_line : String) : String := "bad-op"
+import QipVerif.Model.Noise
+/-! Driver for the relaxation-noise model (C15).
+
+Times: `none` | `s:n/d` (scalar) | `l:n/d;none;n/d` (list, `l:` = empty list); `d > 0`.
+Targets: `none` (default) | `-` (empty) | `0,1`.
+
+* `relax fixed=0|1 dims=2,3 t1=.. t2=.. targets=..`       → `ok <ops>` | `err <kind>`
+* `process fixed=0|1 dims=.. t1=.. t2=.. device=0|1 noises=<spec>+<spec>..|-`
+     spec: `R~<t1>~<t2>~<targets>` | `D~<ids>~<targets>~<allq 0|1>` | `C`  → `ok <ops>` | `err <kind>`
+  `<ops>` = `;`-separated `targets:kind:dim:n/d` (targets `.`-separated, kind `destroy|num|user<id>`,
+  rate `nan` when the prefactor is not finite)
+-/
+open QipVerif QipVerif.Proto QipVerif.Noise
+
+def parseFrac (s : String) : Option Frac :=
+  match s.splitOn "/" with
+  | [a, b] => match a.toInt?, b.toNat? with
+    | some n, some d => if d = 0 then none else some ⟨n, d⟩
+    | _, _ => none
+  | _ => none
+
+def parseOptFrac (s : String) : Option (Option Frac) :=
+  if s == "none" then some none else (parseFrac s).map some
+
+def parseT (s : String) : Option TSpec :=
+  if s == "none" then some .none
+  else if s.startsWith "s:" then (parseFrac (s.drop 2).toString).map .scalar
+  else if s.startsWith "l:" then ((splitNE (s.drop 2).toString ";").mapM parseOptFrac).map .list
+  else none
+
+def parseTargets (s : String) : Option (Option (List Nat)) :=
+  if s == "none" then some none
+  else if s == "-" then some (some [])
+  else (natList? s).map some
+
+def parseNoise (s : String) : Option NoiseSpec :=
+  match s.splitOn "~" with
+  | ["C"] => some .coherent
+  | ["R", a, b, t] =>
+    match parseT a, parseT b, parseTargets t with
+    | some a, some b, some t => some (.relax a b t)
+    | _, _, _ => none
+  | ["D", ids, t, q] =>
+    match natList? ids, parseTargets t, q.toNat? with
+    | some ids, some (some t), some q => some (.decoherence ids t (q == 1))
+    | _, _, _ => none
+  | _ => none
+
+def errName : Err → String
+  | .invalidT => "invalidT" | .t2gt2t1 => "t2gt2t1" | .zerodiv => "zerodiv" | .index => "index"
+
+def showOp (c : COp) : String :=
+  ".".intercalate (c.targets.map toString) ++ ":" ++
+    (match c.kind with | .destroy => "destroy" | .num => "num" | .user i => s!"user{i}") ++
+    s!":{c.dim}:" ++ (match c.rate with | none => "nan" | some r => s!"{r.n}/{r.d}")
+
+def showRes : Except Err (List COp) → String
+  | .ok ops => "ok " ++ ";".intercalate (ops.map showOp)
+  | .error e => "err " ++ errName e
+
+def step (line : String) : String :=
+  let fs := fields line
+  match fs.head? with
+  | some "relax" =>
+    match fNat? fs "fixed", fNats? fs "dims", (fStr? fs "t1").bind parseT, (fStr? fs "t2").bind parseT,
+        (fStr? fs "targets").bind parseTargets with
+    | some fx, some dims, some t1, some t2, some tg => showRes (relaxationOps (fx == 1) dims t1 t2 tg)
+    | _, _, _, _, _ => "bad-op"
+  | some "process" =>
+    match fNat? fs "fixed", fNats? fs "dims", (fStr? fs "t1").bind parseT, (fStr? fs "t2").bind parseT,
+        fNat? fs "device", fStr? fs "noises" with
+    | some fx, some dims, some t1, some t2, some dev, some ns =>
+      let specs := if ns == "-" then some [] else (splitNE ns "+").mapM parseNoise
+      match specs with
+      | some specs => showRes (processNoise (fx == 1) dims specs t1 t2 (dev == 1))
+      | none => "bad-op"
+    | _, _, _, _, _, _ => "bad-op"
+  | _ => "bad-op"
+
 def main : IO Unit := serve step
